@@ -15,6 +15,7 @@ import (
 )
 
 type Gen struct {
+	sentinels map[*ssa.Global]int
 	prog      *ssa.Program
 	pkgs      []*packages.Package
 	ssaPkgs   map[string]*ssa.Package
@@ -411,7 +412,7 @@ func collectWatches(e Expr, w map[string]bool) {
 				w["calls "+normAnchor(s.Val)] = true
 			}
 		}
-		if id, ok := x.Fun.(*EIdent); ok && id.Name == "lastret" && len(x.Args) == 1 {
+		if id, ok := x.Fun.(*EIdent); ok && id.Name == "lastret" && len(x.Args) >= 1 {
 			if s, ok := x.Args[0].(*EStr); ok {
 				w["lastret "+normAnchor(s.Val)] = true
 			}
@@ -631,4 +632,76 @@ func (c *FnCtx) assignOrdinals() {
 	number(calls, c.callOrdOf)
 	number(rets, c.retOrdOf)
 	number(stores, c.storeOrdOf)
+}
+
+// sentinelError reports whether gl is an error-typed package variable whose only store in its package is
+// the result of errors.New / fmt.Errorf in the package initialiser.
+func (g *Gen) sentinelError(gl *ssa.Global) bool {
+	g.tagMu.Lock()
+	defer g.tagMu.Unlock()
+	if g.sentinels == nil {
+		g.sentinels = map[*ssa.Global]int{}
+	}
+	if v, ok := g.sentinels[gl]; ok {
+		return v == 1
+	}
+	g.sentinels[gl] = 2
+	pt, ok := gl.Type().(*types.Pointer)
+	if !ok || !types.IsInterface(pt.Elem()) || gl.Pkg == nil {
+		return false
+	}
+	stores, good := 0, 0
+	var scan func(fn *ssa.Function)
+	seen := map[*ssa.Function]bool{}
+	scan = func(fn *ssa.Function) {
+		if fn == nil || seen[fn] {
+			return
+		}
+		seen[fn] = true
+		for _, b := range fn.Blocks {
+			for _, in := range b.Instrs {
+				if st, ok := in.(*ssa.Store); ok && st.Addr == gl {
+					stores++
+					v := st.Val
+					if mi, ok := v.(*ssa.MakeInterface); ok {
+						v = mi.X
+					}
+					if _, isAlloc := v.(*ssa.Alloc); isAlloc && fn.Name() == "init" {
+						good++ // &T{...}
+					}
+					if call, ok := v.(*ssa.Call); ok {
+						if cal := call.Call.StaticCallee(); cal != nil {
+							switch cal.String() {
+							case "errors.New", "fmt.Errorf":
+								if fn.Name() == "init" {
+									good++
+								}
+							}
+						}
+					}
+				}
+			}
+		}
+		for _, af := range fn.AnonFuncs {
+			scan(af)
+		}
+	}
+	for _, m := range gl.Pkg.Members {
+		switch x := m.(type) {
+		case *ssa.Function:
+			scan(x)
+		case *ssa.Type:
+			for _, t := range []types.Type{x.Type(), types.NewPointer(x.Type())} {
+				ms := g.prog.MethodSets.MethodSet(t)
+				for i := 0; i < ms.Len(); i++ {
+					scan(g.prog.MethodValue(ms.At(i)))
+				}
+			}
+		}
+	}
+	if stores == 1 && good == 1 {
+		g.sentinels[gl] = 1
+		return true
+	}
+	return false
 }
